@@ -53,6 +53,7 @@ def run_case(ctx, case):
         w = CursorAwareWindow(out, inp, keep_last_line=case["keep"], hide_cursor=case["hide"])
         base_sig = ("C07", rows, cols, case["nhist"], case.get("park"), case["keep"], case["hide"])
         prev = "fresh"
+        frame = None
         with w:
             for k, st in enumerate(case["steps"]):
                 vals, cells = [], []
@@ -60,6 +61,10 @@ def run_case(ctx, case):
                     v, c = row_value(r)
                     vals.append(v)
                     cells.append(c)
+                if st.get("inplace") and frame is not None:
+                    frame[:] = vals          # the application keeps one list and edits it in place
+                    vals = frame
+                frame = vals
                 cp = tuple(st["cursor"])
                 top_screen = top_abs - len(term.scrollback)
                 sig = base_sig + (top_screen, prev, repr(st["array"]), cp)
@@ -144,7 +149,12 @@ def gen_case(rng, size=None, steps=6):
                     spec.append(["".join(rng.choice("abc ") for _ in range(k)), dict(rng.choice(obs.PALETTE))])
                     left -= k
                 arr.append(spec)
-        case["steps"].append({"array": arr, "cursor": [rng.randint(0, max(0, h - 1)), rng.randint(0, cols - 1)]})
+        step = {"array": arr, "cursor": [rng.randint(0, max(0, h - 1)), rng.randint(0, cols - 1)]}
+        if case["steps"] and rng.random() < .3:
+            step["inplace"] = True
+            if rng.random() < .6 and case["steps"][-1]["cursor"][0] < max(1, h):
+                step["cursor"] = list(case["steps"][-1]["cursor"])
+        case["steps"].append(step)
         prev = arr
     return case
 
